@@ -793,7 +793,7 @@ def hash_contract(ctx, pkg, rule="R7"):
     hf = pkg.method("Species", "__hash__")
     ctx.saw(SP, "Species.__hash__")
     disj, _ = eq_disjuncts(eqf)
-    paths = hash_paths(hf)
+    paths = hash_paths(hf, resolve=lambda name: pkg.method("Species", name))
     # attributes determined by name (derived from the name by parsing)
     for d in disj:
         lits = set(d)
